@@ -142,6 +142,15 @@ class _DecisionTreeLogisticRegressionNode:
         n_below = below.sum()
         y_above = set(y[above])
         y_below = set(y[below])
+        if _verif.ENABLED:
+            _verif.emit(
+                "dtlr_split",
+                index=int(self.index),
+                n_above=int(n_above),
+                n_below=int(n_below),
+                ncls_above=len(y_above),
+                ncls_below=len(y_below),
+            )
 
         def _fit_side(index, y_above_below, above_below, n_above_below, side):
             if dtlr.verbose >= 1:
